@@ -5,9 +5,11 @@ mod job;
 mod pool;
 mod props;
 mod refenc;
+mod render;
 mod sanit;
 mod selfcheck;
 mod stats;
+mod svgcheck;
 mod symbol;
 
 use fw::{Ctx, Tier};
@@ -23,6 +25,8 @@ fn seed() -> u64 {
 
 fn run_prop(id: &str, ctx: &Ctx) -> Option<fw::Report> {
     Some(match id {
+        "C13" => props::c13::run(ctx),
+        "C18" => props::c18::run(ctx),
         "C01" => props::c01::run(ctx),
         "C02" => props::c02::run(ctx),
         "C03" => props::c03::run(ctx),
@@ -34,6 +38,8 @@ fn run_prop(id: &str, ctx: &Ctx) -> Option<fw::Report> {
         "C10" => props::c10::run(ctx),
         "C07" => props::c07::run(ctx),
         "C11" => props::c11::run(ctx),
+        "C12" => props::c12::run(ctx),
+        "C16" => props::c16::run(ctx),
         "C15" => props::c15::run(ctx),
         _ => return None,
     })
@@ -41,6 +47,8 @@ fn run_prop(id: &str, ctx: &Ctx) -> Option<fw::Report> {
 
 fn replay_prop(id: &str, ctx: &Ctx, job: &serde_json::Value) -> Option<stats::Stats> {
     match id {
+        "C13" => props::c13::replay(ctx, job),
+        "C18" => props::c18::replay(ctx, job),
         "C01" => props::c01::replay(ctx, job),
         "C02" => props::c02::replay(ctx, job),
         "C03" => props::c03::replay(ctx, job),
@@ -52,6 +60,8 @@ fn replay_prop(id: &str, ctx: &Ctx, job: &serde_json::Value) -> Option<stats::St
         "C10" => props::c10::replay(ctx, job),
         "C07" => props::c07::replay(ctx, job),
         "C11" => props::c11::replay(ctx, job),
+        "C12" => props::c12::replay(ctx, job),
+        "C16" => props::c16::replay(ctx, job),
         "C15" => props::c15::replay(ctx, job),
         _ => None,
     }
